@@ -230,6 +230,8 @@ def r183(ctx, rep):
         probs = []
         if test is not None:
             p = _cmp_parts(test)
+            if p and p[1] in (">", ">="):
+                p = (p[2], {">": "<", ">=": "<="}[p[1]], p[0])      # mirrored spelling of the same test
             if not (p and p[1] == "<" and mentions(p[0], want_thr[i]) and mentions(p[0], "RHOEND") and mentions(p[2], "resolution")):
                 probs.append(f"test `{norm(test)[:70]}` is not `{want_thr[i]} * radius_final < resolution`")
         if len(st) != 1:
